@@ -6,22 +6,26 @@ A check returns True/False, or a z3 Bool that must hold under the path condition
 # ruff: noqa
 
 
+def _nm(x):
+    return x.split(".")[-1]
+
+
 def names(tr):
-    return [e[1].lstrip(".") for e in tr if e[0] == "call"]
+    return [_nm(e[1]) for e in tr if e[0] == "call"]
 
 
 def calls(tr, name):
-    return [e for e in tr if e[0] == "call" and e[1].lstrip(".") == name]
+    return [e for e in tr if e[0] == "call" and _nm(e[1]) == name]
 
 
 def positions(tr, pred):
-    return [i for i, e in enumerate(tr) if e[0] == "call" and pred(e[1].lstrip("."))]
+    return [i for i, e in enumerate(tr) if e[0] == "call" and pred(_nm(e[1]))]
 
 
 def raised_by(tr):
     """callee whose exception ended / redirected the path (last raised-by event)."""
     rb = [e for e in tr if e[0] == "raised-by"]
-    return rb[-1][1].lstrip(".") if rb else None
+    return _nm(rb[-1][1]) if rb else None
 
 
 def before_effects(validators, effects):
@@ -32,13 +36,13 @@ def before_effects(validators, effects):
         if v and e and max(v) > min(e):
             return False
         first_raise = next((i for i, ev in enumerate(tr) if ev[0] == "raised-by"), None)
-        if first_raise is not None and tr[first_raise][1].lstrip(".") in validators and e:
+        if first_raise is not None and _nm(tr[first_raise][1]) in validators and e:
             return False
         return True
     return check
 
 
-def bracket(start, end, body=(), shutdown=None):
+def bracket(start, end, body=(), shutdown=None, paused_ok=False):
     """If `start` was called then exactly one `end` follows it (on every path, normal or exceptional), body calls lie between
     them, and `shutdown` (when it occurs) is the last effect and occurs at most once."""
     def check(tr, outcome, *rest):
@@ -49,7 +53,14 @@ def bracket(start, end, body=(), shutdown=None):
             return False
         if not s:
             return not e and (shutdown is None or shutdown not in ns)
-        # a start that itself raised has no matching end obligation
+        paused = paused_ok and any(ev[0] == "new" and ev[1] == "RunResult" and "PAUSED" in ev[2].get("status", "") for ev in tr)
+        if paused:
+            # a paused run has not terminated: no RunEnd is required (nor allowed) before the resume
+            return not e
+        if outcome == "raise:BaseException" and not e:
+            # aborted by a non-Exception BaseException (KeyboardInterrupt, SystemExit, pause signal): the run did not
+            # terminate "completed or failed" - outside the property's quantifier
+            return True
         if len(e) != 1 or e[0] < s[0]:
             return False
         for i, n in enumerate(ns):
